@@ -151,6 +151,60 @@ func c37(r *core.Report, p *core.Prog, thorough bool) {
 		}
 		r.Check(ok, "C37.monotone", "SetTimeoutCount:only-larger", p.Pos(stc.Pos()), "count stored only when larger than the current one")
 	}
+	// every store to the timeout count anywhere: an increment, a raise guarded by
+	// "current < new", or the clamp to the configured cap
+	if cf := p.Field(pkgRound, "timeoutCounter", "count"); cf != nil {
+		nW := 0
+		for _, wr := range core.FieldWrites(p.ModFuncs(), cf) {
+			fn := core.EnclosingNamed(wr.Fn)
+			if isTooling(p, fn) || wr.Kind != "store" || wr.Addr == nil || isFresh(wr.Addr) {
+				continue
+			}
+			nW++
+			kind := ""
+			isCount := func(v ssa.Value) bool {
+				ld, ok := v.(*ssa.UnOp)
+				if !ok || ld.Op != token.MUL {
+					return false
+				}
+				fa, ok := ld.X.(*ssa.FieldAddr)
+				return ok && core.FieldOf(fa) == cf && fa.X == wr.Addr.X
+			}
+			if bo, ok := wr.Val.(*ssa.BinOp); ok && bo.Op == token.ADD && isCount(bo.X) {
+				if k, isK := core.ConstInt(bo.Y); isK && k > 0 {
+					kind = "increment"
+				}
+			}
+			if kind == "" {
+				for _, f := range CmpFacts(wr.Instr.Block()) {
+					x, y, op := f.X, f.Y, f.Op
+					if isCount(y) {
+						x, y = y, x
+						op = map[token.Token]token.Token{token.LSS: token.GTR, token.GTR: token.LSS, token.LEQ: token.GEQ, token.GEQ: token.LEQ, token.EQL: token.EQL, token.NEQ: token.NEQ}[op]
+					}
+					if !isCount(x) || !(y == wr.Val || core.SameValue(y, wr.Val)) {
+						continue
+					}
+					switch op {
+					case token.LSS, token.LEQ:
+						kind = "raise guarded by current < new"
+					case token.GTR:
+						// clamp: accepted only when the bound comes from configuration
+						if c, ok := canonObj(wr.Val).(*ssa.Call); ok && strings.Contains(core.CalleeName(c.Common()), "viper") {
+							kind = "clamp to the configured cap"
+						}
+					}
+				}
+			}
+			r.Check(kind != "", "C37.monotone", "timeout-count-store:"+fn.String(), posOf(p, wr.Instr), "the timeout count is only incremented, raised under current < new, or clamped to the configured cap; this store: "+func() string {
+				if kind == "" {
+					return "unguarded assignment of " + describe(wr.Val)
+				}
+				return kind
+			}())
+		}
+		r.Floor("C37.monotone", "stores to timeoutCounter.count", nW, 4)
+	}
 	av := p.Func("(*" + pkgRound + ".Round).AddVRFShare")
 	if av == nil {
 		r.Unresolved("C37.monotone", "AddVRFShare")
